@@ -43,6 +43,7 @@ SOURCES = {
     "dotted_alias": "import os.path as osp, sys\n\ndef f(a):\n    return osp.join('a', str(a)), sys\n",
     "docstring_future": '"""doc"""\nfrom __future__ import annotations\nimport shapes\n\ndef f(a):\n    return shapes.Sq(a)\n',
     "inside_function": "import sys\n\ndef f(a):\n    import shapes\n    return shapes.Sq(a)\n",
+    "inside_function_from": "import sys\n\ndef f(a):\n    from shapes import Sq\n    return Sq(a)\n",
     "type_checking_block": "from typing import TYPE_CHECKING\nif TYPE_CHECKING:\n    from shapes import Sq\n\ndef f(a):\n    return a\n",
     "star": "from shapes import *\n\ndef f(a):\n    return Sq(a)\n",
     "no_imports": "def f(a):\n    return a\n",
@@ -134,7 +135,7 @@ STUBS = {
 STUB_NAMES = tuple(STUBS)
 # modules the fixture sources / stubs import: provided as real (empty-ish) modules when the result is executed
 FAKE_MODULES = {
-    "shapes": "class Sq:\n    def __init__(self, a=None):\n        self.a = a\nclass Tri: pass\nclass Pt: pass\n",
+    "shapes": "__all__ = ['Sq', 'Tri']\nclass Sq:\n    def __init__(self, a=None):\n        self.a = a\nclass Tri: pass\nclass Pt: pass\n",
     "geometry": "class Point: pass\n",
     "inner": "class X: pass\n",
     "typing_extra": "class Thing: pass\n",
@@ -198,6 +199,16 @@ def judge(src_name, stub_name, annotated_code, code, items):
         elif not in_tc:
             return f"new annotation-only import ({m}, {n}) is not under `if TYPE_CHECKING:`"
     _install_fake_modules()
+    # every import the stub introduces must be somewhere in the result (confined or not), unless a star import of the
+    # source really provides that name
+    star_modules = {m for m, n, _a, _tc in before if n == "*"}
+    present = {(m, n) for m, n, _a, _tc in after}
+    for m, n, _a, _tc in import_triples(STUBS[stub_name]):
+        if (m, n) in present or n is None:
+            continue
+        if m in star_modules and n in getattr(sys.modules.get(m), "__all__", ()):
+            continue
+        return f"the stub's import ({m}, {n}) appears nowhere in the result: the annotation that uses it cannot be resolved"
     ns = {"__name__": "confined_module"}
     try:
         exec(compile(code, "<confined>", "exec"), ns)  # noqa: S102
@@ -219,7 +230,7 @@ def confine_body(t, pairs=None):
 
 
 QUICK_PAIRS = (("plain_import", "user_class"), ("from_alias", "typing_and_user"), ("docstring_future", "user_class"), ("no_imports", "typing_and_user"),
-               ("plain_import", "same_module_new_name"), ("from_alias", "same_name_as_alias"), ("no_imports", "typed_dict"), ("dotted_alias", "user_class"), ("no_imports", "typing_prefixed_module"))
+               ("plain_import", "same_module_new_name"), ("from_alias", "same_name_as_alias"), ("no_imports", "typed_dict"), ("dotted_alias", "user_class"), ("no_imports", "typing_prefixed_module"), ("inside_function_from", "same_name_as_alias"), ("star", "same_module_new_name"))
 tape_harness("confine_quick", [("t", 1)], {}, lambda t: confine_body(t, QUICK_PAIRS), globals())
 tape_harness("confine_all", [("t", 2)], {}, lambda t: confine_body(t), globals())
 
